@@ -43,6 +43,7 @@ func (hdr *TxHeader) ReadFrom(b []byte) error {
 	default: return ErrNewerVersionOrCorruptedData
 	}
 	if hdr.NEntries < 1 { return ErrIllegalArguments (wrapped) }
+	if len(b) < i+sha256.Size+txIDSize+sha256.Size { return ErrCorruptedData }        // FIX hdrTail
 	copy(hdr.Eh[:], b[i:]); i += sha256.Size
 	hdr.BlTxID = binary.BigEndian.Uint64(b[i:]); i += txIDSize
 	if hdr.BlTxID >= hdr.ID { return ErrIllegalArguments (wrapped) }
@@ -50,8 +51,8 @@ func (hdr *TxHeader) ReadFrom(b []byte) error {
 	return nil
 }
 ```
-The minimum-length test covers the v0 layout only; for version 1 nothing checks that the 72 bytes
-after `NEntries` are present. -/
+The minimum-length test covers the v0 layout only; for version 1 only the guard marked FIX checks that
+the 72 bytes after `NEntries` are present (`fx.hdrTail = false`: the code before the repair). -/
 def TxHeader.readFrom (fx : Fix) (b : Bytes) : M TxHeader :=
   if b.length < storeTxIDSize + sha256Size + storeTsSize + 2*storeSszSize + sha256Size + storeTxIDSize + sha256Size then
     M.fail .illegalArguments
@@ -92,9 +93,8 @@ def TxHeader.readFrom (fx : Fix) (b : Bytes) : M TxHeader :=
             pure ({ hdr with nentries := n }, i + storeLszSize)
         else M.fail .newerVersionOrCorruptedData : M (TxHeader × Nat))
       if hdr.nentries < 1 then M.fail .illegalArguments
-      -- FIX (absent in the code; minimal form, a full fix would also require the 32 bytes of BlRoot):
-      --   if len(b) < i+sha256.Size+txIDSize { return ErrCorruptedData }
-      else if fx.hdrTail && b.length < i + sha256Size + storeTxIDSize then M.fail .corruptedData
+      -- FIX hdrTail: if len(b) < i+sha256.Size+txIDSize+sha256.Size { return ErrCorruptedData }
+      else if fx.hdrTail && b.length < i + sha256Size + storeTxIDSize + sha256Size then M.fail .corruptedData
       else do
         let s ← sliceFrom b i
         let hdr := { hdr with eh := copyFixed sha256Size s }
